@@ -202,7 +202,7 @@ def run(ctx):
         ctx.count("%s/%s" % (m["kind"], shape))
         ctx.count("clustered" if clustered else "unclustered")
         ctx.count("samples=%d" % ns)
-        replay = {"n_points": m["n"], "n_samples": ns, "clustered": clustered, "trees": spec, "names": m["names"], "clusters": m["cl"]}
+        replay = {"kind": m["kind"], "n_points": m["n"], "n_samples": ns, "clustered": clustered, "trees": spec, "names": m["names"], "clusters": m["cl"]}
         for key, o in out.items():
             if key == "_trees":
                 continue
@@ -297,3 +297,26 @@ def run(ctx):
         "pandas row order is not compared; grids have 5 points so CCF values are exact decimals in the TSV",
         "well-formed inputs: distinct DataPoint names, data idx = position, every data point's cluster id present in the cluster file, each mutation in one cluster",
     ]
+
+
+def replay(ctx, doc):
+    """Re-run exactly the recorded case (one trace file, one command) on the real code."""
+    r = doc["replay"]
+    single = r["kind"] == "single"
+    specs = [tf.tuplify(r["trees"])] if single else [tf.tuplify(t) for t in r["trees"]]
+    cmd = r["command"].split("/")
+    cmd = (cmd[0], cmd[1]) if cmd[0] != "cons" else (cmd[0], float(cmd[1]), cmd[2])
+    cl = {int(k): v for k, v in r["clusters"].items()} if r.get("clusters") else None
+    job = {"n_points": r["n_points"], "n_samples": r["n_samples"], "names": r["names"], "clusters": cl, "chains": {0: [(-1 - j, sp, ("plain", 0)) for j, sp in enumerate(specs)]}, "cmds": [cmd], "outlier_prob": 0.1}
+    out = tf.run_job(job)
+    print("replay:", out)
+    o = out[r["command"]]
+    ctx.case(key=repr(specs))
+    if "error" in o:
+        ctx.fail(doc["key"], "command %s still raises %s(%s) at %s" % (r["command"], o["error"], o["message"], o["where"]), r)
+        return
+    names, cl2, muts, point_of, cluster_of = inputs(r["n_points"], r["clustered"])
+    pairs = [(a["table"], a["newick_text"]) for a in o["archive"].values()] if "archive" in o else [(o["table"], o["newick_text"])]
+    for table, nwk in pairs:
+        for where, msg in check_outputs(table, nwk, muts, tf.sample_names(r["n_samples"]), point_of, cluster_of, r["clustered"], specs[0] if single else None):
+            ctx.fail(doc["key"], msg, r)
